@@ -519,7 +519,28 @@ def _forward_refs_aliases_metadata(ctx):
                 ctx.violation("equivalent-hints-normalise-differently:bare-generic-alias", f"{show(bare)} normalises to {n1!r:.160}, {show(full)} to {n2!r:.160}", info)
 
 
-DIRECTED = {"documented-equivalences": _directed, "string-bounds-across-modules": _string_bounds_across_modules,
+def _type_variables_in_pipe_unions(ctx):
+    """`list[T] | None` (a types.UnionType) and Optional[list[T]] (typing.Union) mention the same type variables: the tools every provider
+    and predicate is built on give the same answers for both spellings (seeded change: UnionType objects reported no type variables)."""
+    import sys  # noqa: PLC0415
+    if sys.version_info < (3, 10):
+        return
+    from adaptix._internal.type_tools import is_generic  # noqa: PLC0415
+    from adaptix._internal.type_tools.basic_utils import get_type_vars_of_parametrized  # noqa: PLC0415
+    from adaptix._internal.type_tools.fundamentals import get_type_vars  # noqa: PLC0415
+    K = TypeVar("K")
+    for pipe, classic in ((list[T] | None, Optional[list[T]]), (dict[K, T] | list[T], Union[dict[K, T], list[T]]), (list[int] | None, Optional[list[int]]), (tuple[T, ...] | set[T] | None, Union[tuple[T, ...], set[T], None])):
+        ctx.evaluated(("pipe-union-type-vars", show(pipe)), nontrivial=True)
+        ctx.count("equivalent_pairs")
+        for fn in (get_type_vars, get_type_vars_of_parametrized, is_generic, lambda h: attempt(create_loc_stack_checker, h).kind, lambda h: attempt(normalize_type, h).kind):
+            a, b = attempt(fn, pipe), attempt(fn, classic)
+            va = set(a.value) if a.kind == "ok" and isinstance(a.value, tuple) else (a.value if a.kind == "ok" else a.kind)
+            vb = set(b.value) if b.kind == "ok" and isinstance(b.value, tuple) else (b.value if b.kind == "ok" else b.kind)
+            if va != vb:
+                ctx.violation("equivalent-hints-differ:type-variables-of-a-pipe-union", f"{getattr(fn, '__name__', 'probe')}({show(pipe)}) = {va!r}, for {show(classic)} = {vb!r}", {"pipe": show(pipe)})
+
+
+DIRECTED = {"type-variables-in-pipe-unions": _type_variables_in_pipe_unions, "documented-equivalences": _directed, "string-bounds-across-modules": _string_bounds_across_modules,
             "forward-refs-aliases-metadata": _forward_refs_aliases_metadata}
 from ..suite_leg import make as _suite_leg  # noqa: E402
 
